@@ -23,6 +23,7 @@ type c18tInput struct {
 	Transport string `json:"transport"` // unix | tcp
 	Ticks     int    `json:"ticks"`     // lines the service streams after the upgrade reply
 	KeepConn  bool   `json:"keep_conn"` // control: the client keeps its Connection referenced
+	BgRead    bool   `json:"bg_read,omitempty"` // the client waits before receiving the upgrade reply (reply and first payload arrive together) and reads the stream under context.Background()
 }
 
 type c18tStream struct{ ticks int }
@@ -46,7 +47,7 @@ func (s *c18tStream) VarlinkDispatch(ctx context.Context, c varlink.Call, method
 }
 
 // c18tOpen dials, upgrades and returns only the stream (and, for the control, the Connection).
-func c18tOpen(ctx context.Context, addr string, keep bool) (varlink.ReadWriterContext, *varlink.Connection, error) {
+func c18tOpen(ctx context.Context, addr string, keep bool, wait time.Duration) (varlink.ReadWriterContext, *varlink.Connection, error) {
 	conn, err := varlink.NewConnection(ctx, addr)
 	if err != nil {
 		return nil, nil, err
@@ -55,6 +56,7 @@ func c18tOpen(ctx context.Context, addr string, keep bool) (varlink.ReadWriterCo
 	if err != nil {
 		return nil, nil, err
 	}
+	time.Sleep(wait)
 	var out json.RawMessage
 	_, rw, err := recv(ctx, &out)
 	if err != nil {
@@ -98,7 +100,12 @@ func c18tRun(in c18tInput) (msg, key string, infra bool) {
 	}()
 	ctx, cancel := context.WithTimeout(context.Background(), 60*time.Second)
 	defer cancel()
-	rw, keep, err := c18tOpen(ctx, addr, in.KeepConn)
+	var wait time.Duration
+	var rctx context.Context = ctx
+	if in.BgRead {
+		wait, rctx = 150*time.Millisecond, context.Background()
+	}
+	rw, keep, err := c18tOpen(ctx, addr, in.KeepConn, wait)
 	if err != nil {
 		return "upgrade: " + err.Error(), "infra", true
 	}
@@ -110,7 +117,7 @@ func c18tRun(in c18tInput) (msg, key string, infra bool) {
 		runtime.GC()
 		runtime.Gosched()
 		var n int
-		n, rerr = rw.Read(ctx, buf)
+		n, rerr = rw.Read(rctx, buf)
 		got.Write(buf[:n])
 	}
 	runtime.KeepAlive(keep)
@@ -122,6 +129,9 @@ func c18tRun(in c18tInput) (msg, key string, infra bool) {
 		fmt.Fprintf(&want, "tick %03d\n", i)
 	}
 	k := fmt.Sprintf("transport=%s keep_conn=%v", in.Transport, in.KeepConn)
+	if in.BgRead {
+		k += " bg_read=true"
+	}
 	if got.String() != want.String() {
 		var ne net.Error
 		_ = ne
@@ -135,9 +145,10 @@ func runC18T(tier string, r *Result) {
 	for _, tr := range []string{"unix", "tcp"} {
 		for _, ticks := range []int{1, 10, 40} {
 			for _, keep := range []bool{false, true} {
-				inputs = append(inputs, c18tInput{tr, ticks, keep})
+				inputs = append(inputs, c18tInput{Transport: tr, Ticks: ticks, KeepConn: keep})
 			}
 		}
+		inputs = append(inputs, c18tInput{Transport: tr, Ticks: 10, KeepConn: true, BgRead: true})
 	}
 	for i, in := range inputs {
 		if !r.mine(i) || r.expired() {
